@@ -135,6 +135,7 @@ NoCall == [pos |-> <<>>, kw |-> 0, op |-> "", col |-> "", x |-> 0, on |-> "t", s
 \* t.inc(q), t.exc(f), t.find_a(q), t.one_or_none(q), t.inc(); once the caller has edited something also t.inc(**q), and on the second table
 Probe(c) == /\ c.x = 0 /\ c.on \in {"t", "u"} /\ NArgs(c) <= 1
             /\ (c.kw # 0 \/ c.on = "u") => last.e > 0
+            /\ c.on = "u" => c.src = "old"              \* (the second table is there for what a call with fresh, equal-valued objects finds remembered)
 \* the previous call repeated (or complemented) on its own result with the very same arguments: r = t.inc(q1, q2); r.inc(q1, q2)
 Echo(c) == c.on = "last" /\ c.op \in {"inc", "exc"} /\ c.pos = last.call.pos /\ c.kw = last.call.kw /\ c.src = "live" /\ last.call.src = "live"
 
